@@ -286,6 +286,20 @@ def step (d : DSt) (line : String) : DSt × String :=
     match k.toNat? with
     | some k => ({ d with k := k }, "ok")
     | none => (d, "bad-op")
+  | "winner" :: wn :: args =>
+    -- a free-running round: the elected participant's call first, then everybody else's
+    match wn.toInt? with
+    | some wn =>
+      let order : List Nat := (if wn ≥ 0 then [wn.toNat] else []) ++ (List.range args.length).filter (fun p => (p : Int) ≠ wn)
+      let s' := order.foldl (fun (s : St) p =>
+        let a : Int := (args.getD p "0").toInt?.getD 0
+        let l : Label := if a < 0 then .callEnsure p else if a = 0 then .callInit p none
+          else .callInit p (some { gattrDefault s.environ d.ncpu with nWorkers := a })
+        match InitOnce.step d.ncpu s l with
+        | some s1 => runCall d.ncpu s1 p 8
+        | none => s) d.lts
+      ({ d with lts := s' }, "ok")
+    | none => (d, "bad-op")
   | "ev" :: _ => accept d w
   | "fev" :: _ => accept d w
   | ["end"] =>
